@@ -56,10 +56,15 @@ FAMILIES = {
 
 def execute(ex: Execution, family: str, mode: str) -> tuple[Any, list[Any]]:
     mk, expected_result = FAMILIES[family]
-    with EngineExec(ex, RunConfig(pair_time=(mode == "timeout"))) as e:
+    with EngineExec(ex, RunConfig(pair_time=(mode in ("timeout", "timeout_hang")))) as e:
         h = e.h
         cls = mk()
-        timeout = 10.0 if mode == "timeout" else None
+        timeout = 10.0 if mode in ("timeout", "timeout_hang") else None
+        hang = {"on": False}
+        if mode.endswith("_hang"):
+            # from an explorer-chosen point on, the steps that are running block for good: only timers can fire
+            e.cfg.gate_filter = lambda hh, g: not hang["on"]
+            e.add_script([Action("running steps block from now on", lambda: hang.update(on=True))])
         wf = cls(timeout=timeout, runtime=MonRuntime(BasicRuntime()))
         state = {"hd": wf.run(run_id="r1")}
         hd = state["hd"]
@@ -87,7 +92,7 @@ def execute(ex: Execution, family: str, mode: str) -> tuple[Any, list[Any]]:
                         marks["stop_processed"] = True
 
         h.on_tick.append(on_tick)
-        if mode in ("cancel", "cancel_resume", "cancel_resume_x2"):
+        if mode in ("cancel", "cancel_resume", "cancel_resume_x2", "cancel_resume_timeout_hang"):
             e.add_script([Action("cancel_run", lambda: hd.ctx._workflow_cancel_run())])
         e.cfg.stop_when = lambda hh: hd.is_done() and hh.stream_done
         e.drive()
@@ -95,8 +100,10 @@ def execute(ex: Execution, family: str, mode: str) -> tuple[Any, list[Any]]:
         v: list[Any] = []
         w = {"mode": mode, "family": family.split("(")[0]}
         pub = h.published
-        if out[0] == "pending":
-            v.append(("run_never_finishes", w, f"stuck={e.stuck} trace={h.trace}"))
+        if out[0] == "pending" and mode == "cancel_resume_timeout_hang":
+            pass  # the steps blocked before the cancel request was made: nothing to resume (covered by timeout_hang)
+        elif out[0] == "pending":
+            v.append(("run_never_finishes", {**w, "steps_block_for_good": hang["on"]}, f"stuck={e.stuck} trace={h.trace}"))
         elif isinstance(out[1], WorkflowTimeoutError):
             tev = [x for x in pub if isinstance(x, WorkflowTimedOutEvent)]
             if len(tev) != 1 or not isinstance(pub[-1], WorkflowTimedOutEvent):
@@ -112,7 +119,7 @@ def execute(ex: Execution, family: str, mode: str) -> tuple[Any, list[Any]]:
             if marks.get("stop_processed_before_timeout"):
                 v.append(("finished_run_timed_out", w, "the StopEvent result tick was processed before the timeout tick, "
                                                        "yet the run failed with WorkflowTimeoutError"))
-            if mode != "timeout":
+            if mode not in ("timeout", "timeout_hang"):
                 v.append(("unexpected_timeout", w, "timeout without a configured timeout"))
         elif isinstance(out[1], WorkflowCancelledByUser):
             cev = [x for x in pub if isinstance(x, WorkflowCancelledEvent)]
@@ -128,6 +135,27 @@ def execute(ex: Execution, family: str, mode: str) -> tuple[Any, list[Any]]:
             except Exception as ex_:  # noqa: BLE001
                 v.append(("context_not_serializable_after_cancel", w, f"ctx.to_dict() raised {ex_!r}"))
                 snap = None
+            if snap is not None and mode == "cancel_resume_timeout_hang":
+                # the resumed run has a timeout; its steps may block for good at any point: it must then time out
+                wf2 = cls(timeout=10.0, runtime=MonRuntime(BasicRuntime()))
+                h.stream_done = False
+                n_pub = len(h.published)
+                hd2 = wf2.run(ctx=Context.from_dict(wf2, snap), run_id="r2")
+                e.consume_stream(hd2)
+                e.cfg.stop_when = lambda hh: hd2.is_done() and hh.stream_done
+                e.stuck = False
+                e.drive()
+                out2 = task_outcome(hd2._result_task)
+                pub2 = h.published[n_pub:]
+                if out2[0] == "pending":
+                    v.append(("resumed_run_never_times_out", {**w, "steps_block_for_good": hang["on"]},
+                              f"the resumed run (timeout 10 s) is still unfinished with nothing left to happen; trace {h.trace[-8:]}"))
+                elif isinstance(out2[1], WorkflowTimeoutError):
+                    if not pub2 or not isinstance(pub2[-1], WorkflowTimedOutEvent):
+                        v.append(("timed_out_event_missing_or_not_last", {**w, "resumed": True}, f"stream tail {stream_repr(pub2, False)[-3:]}"))
+                elif out2[0] != "result" or out2[1].result != expected_result:
+                    v.append(("resumed_run_after_cancel_does_not_complete", {**w, "pending_delayed_retry_at_cancel": False},
+                              f"resumed run ended {out2}"))
             if snap is not None and mode in ("cancel_resume", "cancel_resume_x2"):
                 wf2 = cls(timeout=None, runtime=MonRuntime(BasicRuntime()))
                 h.stream_done = False
@@ -163,7 +191,7 @@ def execute(ex: Execution, family: str, mode: str) -> tuple[Any, list[Any]]:
                               {**w, "pending_delayed_retry_at_cancel": pending_retry},
                               f"resumed run ended {out2} (stuck={e.stuck}), expected result {expected_result!r}"))
         elif out[0] == "result":
-            if mode == "timeout" and not marks.get("stop_processed"):
+            if mode in ("timeout", "timeout_hang") and not marks.get("stop_processed"):
                 v.append(("result_without_stop", w, "run returned a result but no StopEvent tick was seen"))
         else:
             v.append(("unexpected_outcome", w, f"{out}"))
@@ -176,8 +204,10 @@ def programs(tier: str) -> list[Program]:
     ps = []
     fams = ["chain2", "fan(2,2)", "retry_delay", "wait_retry"] + ([] if q else ["chain3", "fan(3,2)"])
     for fam in fams:
-        for mode in ("timeout", "cancel", "cancel_resume", "cancel_resume_x2"):
+        for mode in ("timeout", "cancel", "cancel_resume", "cancel_resume_x2", "timeout_hang", "cancel_resume_timeout_hang"):
             if fam == "wait_retry" and mode != "timeout":
+                continue
+            if mode.endswith("_hang") and fam not in ("chain2", "fan(2,2)"):
                 continue
             if mode == "cancel_resume_x2" and fam == "retry_delay":
                 continue  # (the delayed-retry finding is already shown by the single cancel)
@@ -192,7 +222,8 @@ RULE = ("timeout (timer firing) or cancel_run arriving at every quiescent point 
         "the timeout tick acted on at the virtual instant it was scheduled for (also with a waiter timeout and a retry delay pending), "
         "no timeout after a processed StopEvent, WorkflowCancelledEvent then WorkflowCancelledByUser, no body "
         "entered after the cancel tick, ctx.to_dict() works and the resumed run completes with the reference "
-        "result - also when the resumed run is itself cancelled at any point and resumed a second time; non-trivial = at least one schedule deviation")
+        "result - also when the resumed run is itself cancelled at any point and resumed a second time; in the *_hang programs the running steps "
+        "block for good from an explorer-chosen point on, and the (fresh or resumed) run with a timeout must then end with WorkflowTimeoutError; non-trivial = at least one schedule deviation")
 
 
 def run(tier: str, seed: int) -> Any:
